@@ -877,10 +877,12 @@ def judge_beside(BaseHandler, SSF, spec, items, calls, sel, order):
     bdecl, bvals = decode_answer(bare) if items else ([], [])
     names = top_names(bdecl)
     # a result that has the name of a constructor already in the answer is merged into it: outside the oracle
-    for c in calls:
+    taken = list(names)
+    for c in [calls[i] for k, i in order if k == "c"]:
         nm, kind, _, _, _ = source_mean(spec, c)
-        if kind == "g" and c["id"].count(".") == 0 and nm in names:
+        if kind == "g" and c["id"].count(".") == 0 and nm in taken:      # taken by an ordinary variable or an earlier result
             return "merge", None
+        taken.append(nm)
     if decl[:len(bdecl)] != bdecl or vals[:len(bvals)] != bvals:
         return "ordinary-differ", ("the ordinary variables beside the calls are not what the handler serves without the calls",
                                    [decl[:len(bdecl)], vals[:12]], [bdecl, bvals[:12]])
